@@ -1,6 +1,6 @@
 import PrefVerif.Driver.Util
 import PrefVerif.Spec.Ordinal
-import PrefVerif.Model.OrdinalStats
+import PrefVerif.Props.C02Indif
 open Lean PrefVerif PrefVerif.Driver PrefVerif.Ordinal
 
 namespace PrefVerif.Driver.C02
@@ -34,6 +34,10 @@ def stateJson (s : OrdState) (hist : List Op) : Json :=
     ("specNumVoters", toJson v.length),
     ("specAlts", toJson (v.map List.flatten).flatten.eraseDups),
     ("specType", toJson (Spec.typeOfVotes ((v.map List.flatten).flatten.eraseDups.length) v)),
+    ("specMaxNumIndif", toJson (C02Indif.votesMaxNumIndif v)),
+    ("specMinNumIndif", toJson (C02Indif.votesMinNumIndif ((v.map List.flatten).flatten.eraseDups.length) v)),
+    ("specLargestIndif", toJson (C02Indif.votesLargestIndif v)),
+    ("specSmallestIndif", toJson (C02Indif.votesSmallestIndif ((v.map List.flatten).flatten.eraseDups.length) v)),
     ("wf", toJson (hist.all Spec.wfOp))]
 
 /-- run a history, reporting the state after every operation -/
